@@ -11,7 +11,7 @@ transaction / rollback-or-apply phase of every call, the three phases of NewCirc
       on the relaxed model and replayed on the real map.
 """
 import copy
-import glob
+import json
 import os
 import shutil
 
@@ -50,7 +50,20 @@ def execute(ck, test, env, name, overlay=None, timeout=900):
     return res, recs
 
 
-def validate(ck, recs, consts, name, what, expect_ok=True):
+def write_meta(ck, name, consts, env, key=None):
+    p = os.path.join(ck.out, name + "_meta.json")
+    json.dump(dict(constants=consts, env=env, key=key), open(p, "w"))
+    return p
+
+
+def env_of(consts):
+    """Executor environment (universe) from the TLA+ constants."""
+    nums = lambda t: ",".join(x.strip() for x in t.strip("{}").split(",") if x.strip())
+    return dict(VERIF_C07_IN=nums(consts["InChans"]), VERIF_C07_OUT=nums(consts["OutChans"]),
+                VERIF_C07_IDS=len(nums(consts["Ids"]).split(",")))
+
+
+def validate(ck, recs, consts, name, what, expect_ok=True, key=None):
     """Validate a Reset-batched record list; on rejection cut out the offending trace."""
     p = os.path.join(ck.out, name + ".ndjson")
     core.write_ndjson(p, recs)
@@ -66,10 +79,11 @@ def validate(ck, recs, consts, name, what, expect_ok=True):
     bad = recs[min((v["line"] or 1) - 1, len(recs) - 1)]
     sched = os.path.join(ck.out, name + "_failing_schedule.ndjson")
     core.write_ndjson(sched, [{k: r[k] for k in ("a", "t", "ins", "outs", "c", "ok")} for r in recs[a + 1:b]])
-    ck.violation("circuitmap:%s:%s" % ((v["invariant"] or "").replace("invariant ", ""), bad.get("a")),
+    ck.violation(key or "circuitmap:%s:%s" % ((v["invariant"] or "").replace("invariant ", ""), bad.get("a")),
                  "%s: the real circuit map deviates from spec/CircuitMap (%s) at line %s of the trace, step %s" % (
                      what, v["invariant"], v["line"], str({k: bad.get(k) for k in ("a", "t", "ins", "outs", "c", "ok", "err", "adds", "drops", "fails")})[:400]),
-                 files={"trace.ndjson": one, "schedule.ndjson": sched}, text=v["cex"])
+                 files={"trace.ndjson": one, "schedule.ndjson": sched,
+                        "meta.json": write_meta(ck, name, consts, env_of(consts), key)}, text=v["cex"])
     return v
 
 
@@ -173,7 +187,8 @@ def anomaly(ck, key, what, relaxed, cfg):
     ck.cov["evaluations"] += len(recs) - 1
     ck.violation(key, "%s. The real circuit map follows the model's counterexample step by step [%s] and ends "
                       "in the state that breaks %s (trace line %s)" % (what, steps, v2["invariant"], v2["line"]),
-                 files={"trace.ndjson": p, "schedule.ndjson": w}, text=v2["cex"])
+                 files={"trace.ndjson": p, "schedule.ndjson": w,
+                        "meta.json": write_meta(ck, tag, consts, env_of(consts), key)}, text=v2["cex"])
 
 
 def histogram(recs):
@@ -186,7 +201,27 @@ def histogram(recs):
     return h
 
 
+def replay(ck):
+    """./vcheck C07 --replay <violation dir>: run the stored schedule on the real map again and
+    validate what it records with the stored constants."""
+    d = ck.replay
+    meta = json.load(open(os.path.join(d, "meta.json")))
+    ck.model_check(SPEC, "CircuitMapMC", "CircuitMapMC.cfg", "CircuitMap (replay sanity run)",
+                   constants=dict(universe_consts([1], [2, 3], 2, 2, 1), Relaxed="{}", MaxOps=3, MaxCrash=1, MaxFail=1),
+                   name="mc_replay", timeout=600, workers=4)
+    sched = ck.scratch("sched_replay")
+    shutil.copy(os.path.join(d, "schedule.ndjson"), os.path.join(sched, "b_1.ndjson"))
+    res, recs = execute(ck, "TestVerifC07CircuitMap", dict(meta["env"], VERIF_SCHED=sched), "exec_replay")
+    ck.cov["evaluations"] += len(recs) - 1
+    ck.cov["traces_validated_against_impl"] += 1
+    v = validate(ck, recs, meta["constants"], "val_replay", "replay of %s" % d, key=meta.get("key"))
+    ck.cov["samples"].append({"replay": d, "accepted": v["ok"]})
+    describe(ck)
+
+
 def run(ck):
+    if getattr(ck, "replay", None):
+        return replay(ck)
     thorough = ck.tier == "thorough"
     W = min(8, core.NCPU)
     skip = os.environ.get("C07_DEV_SKIP", "").split(",")   # development only: mc,gen,random,anomaly
